@@ -2,6 +2,7 @@
 C13 — Push dispatch: right handlers, exactly once, in order. Property theorems only (view Dispatch).
 -/
 import OAP.Model.Client.Dispatch
+import OAP.Model.Client.DispatchClose
 import OAP.Gen.Facts
 namespace OAP.C13
 open OAP OAP.Dispatch
@@ -44,5 +45,36 @@ theorem reader_source :
     Gen.seq_tcpConn_reading = ["conn.closed", "conn.conn.Read", "conn.Close", "conn.readPacket", "conn.Close", "conn.readPacket", "conn.Close"] ∧
     Gen.seq_wsConn_reading = ["conn.closed", "conn.Close", "conn.Close", "conn.readPacket", "conn.Close"] :=
   ⟨rfl, rfl⟩
+
+end OAP.C13
+
+/-! The close path (view DispatchClose): the dispatcher drains the queue before it reports the close -/
+namespace OAP.C13
+open OAP OAP.Dispatch
+
+/-- for EVERY interleaving of reader, dispatcher and `Close`: in every state in which the dispatcher has reported the
+close, the handler log is the routing of ALL packets accepted before the close (however many were still queued), in
+arrival order, followed by the routing of the packets `x` accepted after the close that the drain loop still caught.
+The only accepted packets never delivered are those left in the queue, and they all arrived after the close
+(`DispatchClose.late_packet_stranded`: this does happen, without a warning — the permitted loss of C13 has to include
+frames decoded after the connection was closed). -/
+theorem drained_before_close_report (cap : Nat) (subs : Nat → List Nat) (acts : List DispatchClose.Act)
+    (s : DispatchClose.St) (h : DispatchClose.run cap subs DispatchClose.init acts = some s)
+    (hf : s.finished = true) :
+    ∃ x, s.log = (s.acceptedAtClose ++ x).flatMap (invocations subs) ∧
+      s.accepted = s.acceptedAtClose ++ x ++ s.queue ∧ s.lateAccepted = x ++ s.queue :=
+  DispatchClose.drained_before_close_report cap subs acts s h hf
+
+/-- once the dispatcher has reported the close, no continuation changes the handler log: no handler runs after the
+close report -/
+theorem no_delivery_after_finish (cap : Nat) (subs : Nat → List Nat) (acts : List DispatchClose.Act)
+    (s s' : DispatchClose.St) (hf : s.finished = true) (h : DispatchClose.run cap subs s acts = some s') :
+    s'.finished = true ∧ s'.log = s.log ∧ s'.taken = s.taken :=
+  DispatchClose.no_delivery_after_finish cap subs acts s s' hf h
+
+/-- the invariant of the `Dispatch` view holds in every interleaving with close/drain/finish as well -/
+theorem dinv_carries_over (cap : Nat) (subs : Nat → List Nat) (acts : List DispatchClose.Act) (s : DispatchClose.St)
+    (h : DispatchClose.run cap subs DispatchClose.init acts = some s) : DInv subs (DispatchClose.toDispatch s) :=
+  DispatchClose.dinv_carries_over cap subs acts s h
 
 end OAP.C13
